@@ -46,10 +46,18 @@ def confirm(src, sid, prop, needs):
         rc0, o0 = sh(["bash", demo, os.path.join(w, "target", "debug")], cwd=w, timeout=600)
         out["steps"].append({"step": "demo on unchanged tree", "rc": rc0, "tail": o0[-400:]})
         subprocess.run(["git", "init", "-q", "."], cwd=repo)
+        subprocess.run("git add -A && git -c user.name=v -c user.email=v@v commit -qm base", shell=True, cwd=repo)
         rc, o = sh(["git", "apply", "--whitespace=nowarn", os.path.join(src, "patch.diff")], cwd=repo)
-        out["steps"].append({"step": "apply patch", "rc": rc, "tail": o[-300:]})
+        rebased = False
+        if rc:
+            # /repo has moved on since the sub-agent's worktree was taken: retry with fuzz and keep the re-based diff
+            rc, o2 = sh(["patch", "-p1", "-F3", "--no-backup-if-mismatch", "-i", os.path.join(src, "patch.diff")], cwd=repo)
+            o += o2
+            rebased = rc == 0
+        out["steps"].append({"step": "apply patch", "rc": rc, "rebased_with_fuzz": rebased, "tail": o[-300:]})
         if rc:
             return out
+        new_diff = subprocess.run(["git", "diff"], cwd=repo, capture_output=True, text=True).stdout
         rc, o = sh(["cargo", "build", "--offline"], cwd=repo, env=env)
         out["steps"].append({"step": "build changed", "rc": rc, "tail": o[-600:] if rc else ""})
         if rc:
@@ -64,9 +72,11 @@ def confirm(src, sid, prop, needs):
         if out["confirmed"]:
             dst = os.path.join(V, "seeded", sid)
             os.makedirs(dst, exist_ok=True)
-            for f in ("patch.diff", "demo.sh", "notes.md"):
+            for f in ("demo.sh", "notes.md"):
                 if os.path.exists(os.path.join(src, f)):
                     shutil.copy(os.path.join(src, f), os.path.join(dst, f))
+            with open(os.path.join(dst, "patch.diff"), "w") as f:
+                f.write(new_diff)         # identical to the sub-agent's patch unless it had to be re-based onto /repo's HEAD
             meta = {"id": sid, "breaks_property": prop, "needs_to_manifest": needs, "origin": "independent sub-agent given only the property text and a scratch worktree",
                     "confirmed": {"when": time.strftime("%Y-%m-%d %H:%M"), "what_i_ran": [
                         "scratch copy of /repo tracked tree; cargo build --offline; bash demo.sh <target/debug> -> exit 0",
